@@ -172,14 +172,50 @@ def guard_equiv(guards, accepted):
     return None
 
 
+class _PseudoLoop:
+    def __init__(self, elem, iterable, node):
+        self.elem, self.iterable, self.node = elem, iterable, node
+
+
+class _PseudoCtx:
+    def __init__(self, guards, loops):
+        self.guards, self.loops, self.tries, self.func = guards, loops, (), None
+
+
+class _PseudoYield:
+    """``yield from (<expr> for i in .. for a in .. if ..)`` read as a loop nest with a guarded yield (third accepted idiom)."""
+    kind = "yield"
+
+    def __init__(self, e, comp):
+        self.node = e.node
+        self.data = {"value": comp[2]}
+        self.loopinfos = [_PseudoLoop(elem, elem[3], e.node) for elem, _ in comp[3]]
+        guards = tuple(e.ctx.guards) + tuple((c, True) for _, conds in comp[3] for c in conds)
+        self.ctx = _PseudoCtx(guards, ())
+
+    def __getitem__(self, k):
+        return self.data[k]
+
+
+def _yield_from_blocks(s):
+    out = []
+    for e in s.events_of("yield_from"):
+        v = strip(e["value"])
+        if head(v) == "comp" and v[1] in ("gen", "list") and not e.ctx.loops:
+            out.append(_PseudoYield(e, v))
+    return out
+
+
 def check_generator(r, rule, q, families, alphabet_default="pyrepseq.io.aminoacids"):
     rep = r.rep
     s = r.A.summary(q)
     rep.analysed(q)
     x = ("param", s.params[0][0])
     n = ("call", ("glob", "builtins.len"), (x,), ())
-    ys = s.events_of("yield")
+    ys = list(s.events_of("yield")) + _yield_from_blocks(s)
     where = where_of(r.P, s.func, s.func.node)
+    if any(e.kind == "yield_from" for e in s.events) and not all(isinstance(e, _PseudoYield) or e.kind == "yield" for e in ys):
+        raise AnalysisBroken(f"{q}: 'yield from' of something other than a generator expression is outside the idiom list")
     alpha = None
     for name, default, kind in s.params:
         if name == "alphabet":
@@ -197,7 +233,7 @@ def check_generator(r, rule, q, families, alphabet_default="pyrepseq.io.aminoaci
         if kind not in families:
             rep.ob(rule, q, False, f"{q.rsplit('.', 1)[1]} yields only {'/'.join(families)} edits", w, expected="/".join(families), found=kind, key=f"family {kind}")
             continue
-        lps = [s.loops[l] for l in e.ctx.loops]
+        lps = e.loopinfos if isinstance(e, _PseudoYield) else [s.loops[l] for l in e.ctx.loops]
         i = ed[1]
         pos_loop = next((lp for lp in lps if lp.elem == i), None)
         okpos = pos_loop is not None
@@ -284,6 +320,22 @@ VARIANTS = [
     V("nnn-one-round-too-many", DI, "    while distance < maxdistance:", "    while distance <= maxdistance:", rule="C12-NNN"),
     V("neighbor-numbers-no-set", DI, "len(set(neighborhood(seq)) & reference) for seq in seqs", "len(set(neighborhood(seq)) | reference) for seq in seqs", rule="C12-PAIRS"),
     V("deletion-guard-too-strong", DI, "        if (i > 0) and (x[i] == x[i - 1]):\n            continue\n        yield x[:i] + x[i + 1 :]", "        if (i > 0) and (x[i] == x[i - 1] or x[i] == x[0]):\n            continue\n        yield x[:i] + x[i + 1 :]", rule="C12-LEV"),
+    V("silent-yield-from-comprehensions", DI, """    # deletion
+    for i in range(len(x)):
+        # only delete first repeated amino acid
+        if (i > 0) and (x[i] == x[i - 1]):
+            continue
+        yield x[:i] + x[i + 1 :]
+    # replacement
+    for i in range(len(x)):
+        for aa in alphabet:
+            # do not replace with same amino acid
+            if aa == x[i]:
+                continue
+            yield x[:i] + aa + x[i + 1 :]
+""", """    yield from (x[:i] + x[i + 1 :] for i in range(len(x)) if not ((i > 0) and (x[i] == x[i - 1])))
+    yield from (x[:i] + aa + x[i + 1 :] for i in range(len(x)) for aa in alphabet if aa != x[i])
+""", expect="silent"),
     V("silent-last-of-run-deletion", DI, "        if (i > 0) and (x[i] == x[i - 1]):\n            continue\n        yield x[:i] + x[i + 1 :]", "        if (i < len(x) - 1) and (x[i] == x[i + 1]):\n            continue\n        yield x[:i] + x[i + 1 :]", expect="silent"),
     V("silent-i>=1", DI, "            if (i > 0) and (aa == x[i - 1]):\n                continue", "            if (i >= 1) and (x[i - 1] == aa):\n                continue", expect="silent"),
     V("silent-positive-guard", DI, "            # do not replace with same amino acid\n            if aa == x[i]:\n                continue\n            yield x[:i] + aa + x[i + 1 :]\n    # insertion", "            if aa != x[i]:\n                yield x[:i] + aa + x[i + 1 :]\n    # insertion", expect="silent"),
